@@ -45,6 +45,7 @@ type Handled struct {
 	Kind string // message / presence / iq / other type name
 	ID   string
 	Type string
+	From string
 	Task string
 }
 
@@ -81,6 +82,18 @@ type CW struct {
 	OnPacket func(s xmpp.Sender, p stanza.Packet)
 	// OnEvent is chained after recording (e.g. a StreamManager's handler).
 	LogW *LogWriter
+}
+
+func packetFrom(p stanza.Packet) string {
+	switch v := p.(type) {
+	case stanza.Message:
+		return v.From
+	case stanza.Presence:
+		return v.From
+	case *stanza.IQ:
+		return v.From
+	}
+	return ""
 }
 
 func packetInfo(p stanza.Packet) (kind, id, typ string) {
@@ -139,8 +152,8 @@ func (w *CW) CatchAll() {
 
 func (w *CW) recordPacket(s xmpp.Sender, p stanza.Packet) {
 	kind, id, typ := packetInfo(p)
-	w.Handled = append(w.Handled, Handled{Seq: len(w.e.Log), At: w.e.Now(), Kind: kind, ID: id, Type: typ, Task: w.e.current})
-	w.e.Logf("cb.handler", "%s id=%s type=%s", kind, id, typ)
+	w.Handled = append(w.Handled, Handled{Seq: len(w.e.Log), At: w.e.Now(), Kind: kind, ID: id, Type: typ, From: packetFrom(p), Task: w.e.current})
+	w.e.Logf("cb.handler", "%s id=%s type=%s from=%s", kind, id, typ, packetFrom(p))
 	for i := 0; i < w.Dawdle; i++ {
 		w.e.Yield("handler.dawdle")
 	}
